@@ -30,16 +30,12 @@ theorem processPolygon_noEdges (s : Bool) (c : Nat) (e : Bool) (st : FQ × Optio
 
 theorem fillQueue_subject_noEdges (a b : MPoly) (op : Op) (h : NoEdges a) : (fillQueue a b op).sbbox = none := by
   unfold fillQueue
-  have : ∀ (cid : Nat), ∃ cid', List.foldl (fun (acc : Nat × FQ × Option BBox) p =>
-        let (cid, fq, sb) := acc
-        let cid := cid + 1
-        let (fq, sb) := processPolygon true cid true (fq, sb) p
-        (cid, fq, sb)) (cid, {}, none) a = (cid', {}, none) := by
+  have : ∀ (cid : Nat), ∃ cid', List.foldl subjStep (cid, {}, none) a = (cid', {}, none) := by
     induction a with
     | nil => intro cid; exact ⟨cid, rfl⟩
     | cons p ps ih =>
       intro cid
-      simp only [List.foldl_cons]
+      simp only [List.foldl_cons, subjStep]
       rw [processPolygon_noEdges _ _ _ _ _ (h p List.mem_cons_self)]
       exact ih (fun p' hp' => h p' (List.mem_cons_of_mem _ hp')) (cid + 1)
   obtain ⟨cid', hc⟩ := this 0
@@ -47,26 +43,16 @@ theorem fillQueue_subject_noEdges (a b : MPoly) (op : Op) (h : NoEdges a) : (fil
 
 theorem fillQueue_clipping_noEdges (a b : MPoly) (op : Op) (h : NoEdges b) : (fillQueue a b op).cbbox = none := by
   unfold fillQueue
-  generalize List.foldl (fun (acc : Nat × FQ × Option BBox) p =>
-        let (cid, fq, sb) := acc
-        let cid := cid + 1
-        let (fq, sb) := processPolygon true cid true (fq, sb) p
-        (cid, fq, sb)) (0, {}, none) a = acc0
-  obtain ⟨cid0, fq0, sb0⟩ := acc0
-  have : ∀ (cid : Nat) (fq : FQ), ∃ cid', List.foldl (fun (acc : Nat × FQ × Option BBox) p =>
-        let (cid, fq, cb) := acc
-        let exterior := op != .difference
-        let cid := if exterior then cid + 1 else cid
-        let (fq, cb) := processPolygon false cid exterior (fq, cb) p
-        (cid, fq, cb)) (cid, fq, none) b = (cid', fq, none) := by
+  generalize List.foldl subjStep (0, {}, none) a = acc0
+  have : ∀ (cid : Nat) (fq : FQ), ∃ cid', List.foldl (clipStep op) (cid, fq, none) b = (cid', fq, none) := by
     induction b with
     | nil => intro cid fq; exact ⟨cid, rfl⟩
     | cons p ps ih =>
       intro cid fq
-      simp only [List.foldl_cons]
+      simp only [List.foldl_cons, clipStep]
       rw [processPolygon_noEdges _ _ _ _ _ (h p List.mem_cons_self)]
       exact ih (fun p' hp' => h p' (List.mem_cons_of_mem _ hp')) _ fq
-  obtain ⟨cid', hc⟩ := this cid0 fq0
+  obtain ⟨cid', hc⟩ := this acc0.1 acc0.2.1
   simp only [hc]
 
 /-- C06, empty operand: the call returns, takes the shortcut, and the value is the listed one -/
